@@ -8,6 +8,7 @@ import (
 	"os/exec"
 	"strconv"
 	"strings"
+	"sync/atomic"
 	"time"
 )
 
@@ -46,6 +47,8 @@ type Solver struct {
 	lastSat   bool
 	lines     chan string
 	Hung      int
+	writing   atomic.Int64 // start (unix nanoseconds) of the pipe write in progress, 0 when none
+	wdStop    chan struct{}
 }
 
 // Backends available in this sandbox.
@@ -94,6 +97,33 @@ func (s *Solver) start() error {
 	}
 	s.in = bufio.NewWriterSize(stdin, 1<<16)
 	s.out = bufio.NewReaderSize(stdout, 1<<16)
+	// a solver that stops reading its input (busy with a huge term) blocks our pipe write, where the
+	// reply time limit of readRaw cannot see it: a write that stays blocked past the limit kills the process
+	if s.wdStop != nil {
+		close(s.wdStop)
+	}
+	s.wdStop = make(chan struct{})
+	s.writing.Store(0)
+	go func(stop chan struct{}, proc *os.Process) {
+		limit := time.Duration(s.TimeoutMs)*time.Millisecond + 20*time.Second
+		if s.TimeoutMs == 0 {
+			limit = 5 * time.Minute
+		}
+		tick := time.NewTicker(time.Second)
+		defer tick.Stop()
+		for {
+			select {
+			case <-stop:
+				return
+			case <-tick.C:
+				if w := s.writing.Load(); w != 0 && time.Since(time.Unix(0, w)) > limit {
+					s.Hung++
+					proc.Kill()
+					return
+				}
+			}
+		}
+	}(s.wdStop, s.cmd.Process)
 	lines := make(chan string, 1024)
 	s.lines = lines
 	go func(r *bufio.Reader) {
@@ -152,8 +182,10 @@ func (s *Solver) send(line string) {
 	if s.Log != nil {
 		fmt.Fprintln(s.Log, line)
 	}
+	s.writing.Store(time.Now().UnixNano())
 	s.in.WriteString(line)
 	s.in.WriteByte('\n')
+	s.writing.Store(0)
 }
 
 func (s *Solver) level() int { return len(s.defLog) - 1 }
@@ -287,7 +319,9 @@ func (s *Solver) readLine() (string, error) {
 
 func (s *Solver) check() Result {
 	s.send("(check-sat)")
+	s.writing.Store(time.Now().UnixNano())
 	s.in.Flush()
+	s.writing.Store(0)
 	t0 := time.Now()
 	defer func() { s.TimeSpent += time.Since(t0) }()
 	s.Queries++
@@ -387,7 +421,9 @@ func (s *Solver) Values(vars []*Term) (map[int]uint64, error) {
 		}
 		sb.WriteString("))")
 		s.send(sb.String())
+		s.writing.Store(time.Now().UnixNano())
 		s.in.Flush()
+		s.writing.Store(0)
 		// read until parentheses balance
 		depth := 0
 		var txt strings.Builder
